@@ -12,7 +12,7 @@ from ..core import call_real, VERIF
 from . import c05
 
 ID = "C09"
-LEAN_MODULE = "CKT.Props.C09"
+LEAN_MODULE = "CKT.Props.C09Gen"
 THEOREMS = ["CKT.C09." + t for t in ["greedyWrites_id", "step_preserves", "run_preserves", "history_independent", "find_cuts_reproducible",
                                       "exact_weights_pure"]]
 RULE = ("target find_cuts requests (integer-kappa circuits, compared exactly with the model; circuits whose cut candidates take the KAK path - rzx, xx+-yy, unitaries, instances of a user-defined gate class that share name and parameters but not their matrix - compared on overhead and on the decomposition attached to every cut gate) evaluated before and after random histories of 2-12 other "
@@ -308,6 +308,17 @@ def _both_wires_family():
             if qregs:
                 tgt["qregs"] = qregs
             yield ("history", {"target": tgt, "history": [], "scramble": [1, 2, 3], "fresh": True, "hashseeds": [1, 2, 3, 4, 5], "always_oracle": True})
+
+
+# the search actions of the model are the translated source (harness/translate/actions.py -> Generated/CutActions.lean)
+THEOREMS = THEOREMS + ["CKT.C07Gen.run_eq_model", "CKT.C07Gen.actionList_translated", "CKT.C09Gen.actions_pure"]
+
+
+def regenerate():
+    """the five search actions, translated from cut_finding/cutting_actions.py on every run"""
+    from ..translate import actions
+    from ..core import REPO, LEAN
+    actions.regenerate(REPO, LEAN)
 
 
 def cases(rng, tier):
